@@ -85,6 +85,7 @@ class NFEval:
         self.one = self.S.one
         self.zero = self.S.zero
         self.opaque_count = 0
+        self.sums = {}            # atom key -> Sum (for flattening c*(a+b) inside sums)
 
     # -- constructors ----------------------------------------------------
     def num(self, q):
@@ -138,8 +139,14 @@ class NFEval:
         if isinstance(x, Sum):
             if len(x.terms) == 1:
                 return x.terms[0]
-            # factor out a common rational content so that (2a+2b) and (a+b) share the atom
-            return Mono(Fraction(1), {x.key(): self.one})
+            # factor out the rational content (coefficient of the first term in canonical
+            # order) so that (2a+2b), (a+b) and (a/2+b/2) share one atom
+            c = x.terms[0].coef
+            if c != 1:
+                x = Sum([Mono(t.coef / c, t.f) for t in x.terms])
+            k = x.key()
+            self.sums[k] = x
+            return Mono(c, {k: self.one})
         raise TypeError(x)
 
     def mul(self, a, b):
@@ -159,8 +166,8 @@ class NFEval:
 
     def add(self, a, b, sign=1):
         def f(x, y):
-            tx = x.terms if isinstance(x, Sum) else [x]
-            ty = y.terms if isinstance(y, Sum) else [y]
+            tx = self.flat_terms(x)
+            ty = self.flat_terms(y)
             acc = {}
             order = []
             for t, s in [(t, 1) for t in tx] + [(t, sign) for t in ty]:
@@ -176,6 +183,19 @@ class NFEval:
                 return terms[0]
             return Sum(terms)
         return self.lift2(f, a, b)
+
+    def flat_terms(self, x):
+        """Terms of x with every `c * (sum)^1` term expanded into the sum."""
+        out = []
+        for t in (x.terms if isinstance(x, Sum) else [x]):
+            if isinstance(t, Mono) and len(t.f) == 1:
+                (k, e), = t.f.items()
+                if e == self.one and k in self.sums:
+                    for u in self.sums[k].terms:
+                        out.extend(self.flat_terms(Mono(t.coef * u.coef, u.f)))
+                    continue
+            out.append(t)
+        return out
 
     def power(self, a, e):
         """a ** e with e a field element."""
